@@ -187,7 +187,7 @@ impl<'c, Q: Queue> Interp<'c, Q> {
             2 => !pq && matches!(g, Group::Order | Group::Panic),
             3 => matches!(g, Group::Content | Group::Ret | Group::Panic),
             4 => matches!(g, Group::Panic | Group::Tables),
-            6 => g == Group::Sorted || (g == Group::Panic && matches!(op, "sorted" | "sorted_iter")),
+            6 => g == Group::Sorted || (g == Group::Panic && matches!(op, "sorted" | "sorted_iter" | "adaptor_sorted")),
             7 => {
                 g == Group::Hint
                     || (matches!(op, "extend" | "append" | "from_vec" | "from_iter" | "convert" | "ctor")
@@ -200,7 +200,7 @@ impl<'c, Q: Queue> Interp<'c, Q> {
             13 => {
                 g == Group::IterStd
                     || (g == Group::Panic
-                        && matches!(op, "iter" | "ref_into_iter" | "into_iter" | "drain" | "sorted_iter" | "adaptor"))
+                        && matches!(op, "iter" | "ref_into_iter" | "into_iter" | "drain" | "sorted_iter" | "adaptor" | "adaptor_sorted"))
             }
             14 => g == Group::EqClone || (matches!(op, "eq" | "clone") && g != Group::Tables),
             15 => g == Group::Serde || (matches!(op, "serde" | "deser_seq") && g != Group::Tables),
